@@ -3,6 +3,7 @@ import VrlModel.Driver.Lang
 import VrlModel.Driver.Arith
 import VrlModel.Driver.C25
 import VrlModel.Driver.C29int
+import VrlModel.Driver.C20
 
 /-- Line protocol driver: one case per line `op <tab> arg…`, one reply line per case. -/
 def handlers : List (String → List String → Option String) := [
@@ -10,7 +11,8 @@ def handlers : List (String → List String → Option String) := [
   Driver.LangRun.handle,
   Driver.ArithOps.handle,
   Driver.C25.handle,
-  Driver.C29int.handle
+  Driver.C29int.handle,
+  Driver.C20.handle
 ]
 
 def dispatch (op : String) (args : List String) : String :=
